@@ -25,7 +25,7 @@ from ..pool import pmap
 from ..sched import Scheduler, ThreadingShim
 
 TARGET = "semantiva/execution/transport/in_memory.py"
-CHANNELS = ["a", "b", "c.x", "c.y"]
+CHANNELS = ["a", "b", "c.x", "c.y", "c.q.x"]
 
 
 def run_schedule(scn: Dict[str, Any], chooser) -> Dict[str, Any]:
@@ -74,8 +74,13 @@ def run_schedule(scn: Dict[str, Any], chooser) -> Dict[str, Any]:
         def subscriber(sid, pat):
             def f():
                 pat_of[threading.get_ident()] = pat
-                for msg in tr.subscribe(pat):
+                sub = tr.subscribe(pat)
+                mine = 0
+                for msg in sub:
                     received.append((sid, msg.data["p"], msg.data["k"], msg.data["ch"]))
+                    mine += 1
+                    if scn.get("close_after") and mine >= scn["close_after"]:
+                        sub.close()          # closed from inside the loop body; the loop is left to end by itself
             return f
 
         fns = [publisher(f"p{i}", plan) for i, plan in enumerate(scn["pubs"])] + \
@@ -185,6 +190,8 @@ SCENARIOS = [
     {"pubs": [["a"], ["a"], ["a"]], "subs": [], "pre": []},                # 3-way creation race
     {"pubs": [["a", "a"]], "subs": ["a"], "pre": []},                      # exact-name subscriber racing the FIRST publish to its channel
     {"pubs": [["a", "b"]], "subs": ["*"], "pre": []},                      # wildcard subscriber scanning while channels are being created
+    {"pubs": [["c.x", "c.q.x"], ["c.x"]], "subs": ["c.*.x"], "pre": []},   # a pattern whose prefix and suffix overlap on the channel "c.x"
+    {"pubs": [["a", "a", "a"]], "subs": ["a"], "pre": ["a"], "close_after": 1},   # the consumer closes its subscription inside its loop
 ]
 
 
